@@ -3,6 +3,7 @@ import seqcheck
 import draincheck
 import wrcheck
 import loadcheck
+import compcheck
 
 CHECKS = {}
 META = {}
@@ -78,3 +79,14 @@ for _p in ("C08", "C09"):
     }
 ENGINES.append({"name": "load-race", "path": "tools/loadcheck.py", "serves_properties": ["C08", "C09"],
                 "kind_free_text": "TLC on spec/LoadRace.tla; harness/otter/verif_load_test.go; spec/LoadHist.tla judges histories"})
+
+CHECKS["C16"] = compcheck.run_c16
+META["C16"] = {
+    "engine": "component-replay",
+    "text": "every accepted write event is popped exactly once, in per-producer order, refusals only at full capacity, nothing lost across growth: MPSC.tla (one label per shared access) model-checked; its behaviours and seeded schedules are replayed on the real queue by the gate scheduler, free-running producers with yields add volume; histories judged by MPSCHist.tla",
+    "design_ref": "DESIGN.md section 6 (C16)",
+    "note": "bounded model (2-3 producers, 2-3 pushes, capacities 2->4/8); real runs up to 8 producers and capacities up to 64; serialised at hook granularity in gated runs",
+    "technique": "TLA+/PlusCal spec (MPSC.tla) model-checked with TLC + replay of TLC behaviours as schedules on the real queue + TLA+ history judge (MPSCHist.tla)",
+}
+ENGINES.append({"name": "component-replay", "path": "tools/compcheck.py", "serves_properties": ["C16"],
+                "kind_free_text": "TLC on the mechanism spec; harness/<pkg> in-package overlay drivers under harness/kit; TLA+ history judges"})
